@@ -8,7 +8,7 @@ EXTENDS XlLogic, Json
 CONSTANTS Depth, Sample
 VARIABLE st
 Conds == {[t |-> "cond", i |-> 1], [t |-> "cond", i |-> 2], [t |-> "cond", i |-> 3]}
-Leaves == {[t |-> "num", n |-> 7], [t |-> "num", n |-> 9], [t |-> "fail"], [t |-> "na"], [t |-> "blank"], [t |-> "text"], [t |-> "failref"]}
+Leaves == {[t |-> "num", n |-> 7], [t |-> "num", n |-> 9], [t |-> "fail"], [t |-> "na"], [t |-> "blank"], [t |-> "text"], [t |-> "failref"], [t |-> "failcat"], [t |-> "failcmp"]}
 If3(c, a, b) == [t |-> "if3", c |-> c, a |-> a, b |-> b]
 If2(c, a) == [t |-> "if2", c |-> c, a |-> a]
 Ifs(ps) == [t |-> "ifs", ps |-> ps]
